@@ -1,4 +1,4 @@
-"""Mechanically generated spec corpus: every ordered pair (and every single) of instruction templates in five
+"""Mechanically generated spec corpus: every ordered pair (and every single) of 38 instruction templates in five
 contexts (top level, inside <chunked>, inside a <case>, inside a <case> inside <chunked>, after a <chunked>).
 
 It widens the *programs* dimension far beyond the hand-written core corpus: the seeded changes that the core
@@ -40,6 +40,8 @@ TEMPLATES = [
     ("tailfixed", '<array name="{p}ta" type="Coords"/>', ""),
     ("tailshort", '<array name="{p}tb" type="short"/>', ""),
     ("tailnamed", '<array name="{p}tn" type="Named"/>', ""),
+    ("tailbyte", '<array name="{p}ty" type="byte"/>', ""),
+    ("lenbytes", '<length name="{p}yl" type="char"/><array name="{p}ya" type="byte" length="{p}yl"/>', ""),
     ("delim", '<array name="{p}d" type="string" delimited="true"/>', "C"),
     ("delimfixed", '<array name="{p}dn" type="string" length="2" delimited="true" trailing-delimiter="false"/>', "C"),
     ("delimthings", '<array name="{p}ds" type="NamedThing" delimited="true" trailing-delimiter="false"/>', "C"),
